@@ -183,7 +183,8 @@ def gen_cases(tier, seed):
         cases.append({'kind': 'get', 'entries': entries,
                       'sub': [[rng.choice(names), 'file', 'sub-data']
                               for _ in range(rng.choice([0, 1, 2]))],
-                      'api': rng.choice(['get', 'get', 'mget', 'mget_glob']),
+                      'api': rng.choice(['get', 'get', 'mget', 'mget_glob',
+                                         'mget_two_globs']),
                       'follow': rng.random() < 0.3,
                       'version': rng.choice([3, 3, 4]),
                       'cseed': rng.randrange(1 << 30)})
@@ -519,6 +520,12 @@ def _run_get(case, mon, viol):
                     if case['api'] == 'get':
                         t = asyncio.ensure_future(sftp.get(
                             '/src', dest, recurse=True,
+                            follow_symlinks=case['follow'],
+                            error_handler=errs.append))
+                    elif case['api'] == 'mget_two_globs':
+                        # the same directory is scanned for two patterns
+                        t = asyncio.ensure_future(sftp.mget(
+                            ['/src/o*', '/src/*'], dest, recurse=True,
                             follow_symlinks=case['follow'],
                             error_handler=errs.append))
                     elif case['api'] == 'mget_glob':
